@@ -8,7 +8,7 @@
    writes: what was started or learned as decided in this process life is never started again, the
    store is never weakened, and a restart still resumes from the store. *)
 From Coq Require Import List NArith Bool Arith Lia.
-From SSV Require Import Gen.CtrlConsts Ctrl.Model Ctrl.Proofs.
+From SSV Require Import Gen.CtrlConsts Ctrl.Model Ctrl.Proofs Ctrl.Proofs3.
 Import ListNotations.
 Local Open Scope N_scope.
 
@@ -18,14 +18,50 @@ Definition unsave (s0 s1 : sys) : sys :=
      rn := rn s1;
      store := store s0 |}.
 
+(* A TRANSIENT failure: only the first storage call that writes is refused (saveInstance returns at its
+   first failing Set, so that call stores nothing).  The controller saves in UponDecided and the runner
+   saves the same decided message again after didDecideCorrectly (baseConsensusMsgProcessing), so:
+   - when UponDecided's own save reaches the database ([ctrl_writes]) it is the refused one: the memory
+     state moves on, the store and highestSaved stay ([unsave]), and the runner's save - if the message
+     decided the runner's running instance - then runs as always and stores the certificate after all;
+   - otherwise the runner's save (if any) is the refused one, which leaves everything as it is. *)
+Definition ctrl_writes (f : cfg) (c : ctrl) (d : db) (h : N) (m : cert) : bool :=
+  let found := instance_for_height f c d h in
+  let upd (mem : bool) (i' : inst) := if mem then update_first (insts c) i' else insts c in
+  let '(l', save) :=
+    match found with
+    | None => (add_new (insts c) (new_decided h m), true)
+    | Some (i, mem) =>
+        if negb (i_decided i) then (upd mem (add_commit (decide_with i (c_round m)) m), true)
+        else if Nat.ltb (length (longest_unique (i_commits i) (c_round m))) (length (c_signers m))
+             then (upd mem (add_commit i m), true)
+             else (insts c, false)
+    end in
+  save && match find_inst l' h with
+          | Some _ => is_highest f (set_insts c l') h m || full f
+          | None => false
+          end.
+
+Definition process_decided_once (s : sys) (h : N) (m : cert) (valid looks : bool) : sys * res :=
+  if negb valid then process_decided s h m valid looks
+  else
+    let '(c1, d1, ret) := upon_decided (cf s) (ct s) (store s) h m in
+    let s1 := set_ct_db s (compact_at c1 h) d1 in
+    if ctrl_writes (cf s) (ct s) (store s) h m then
+      let s1' := unsave s s1 in
+      if ret then runner_decided s1' h m else (s1', DOk)
+    else (s1, if ret then snd (runner_decided s1 h m) else DOk).
+
 Inductive xop :=
 | XOp (o : op)
-| XDecidedRefused (h : N) (m : cert) (valid looks : bool).
+| XDecidedRefused (h : N) (m : cert) (valid looks : bool)
+| XDecidedRefusedOnce (h : N) (m : cert) (valid looks : bool).
 
 Definition xstep (s : sys) (x : xop) : sys * res :=
   match x with
   | XOp o => step s o
   | XDecidedRefused h m v l => let '(s', r) := process_decided s h m v l in (unsave s s', r)
+  | XDecidedRefusedOnce h m v l => process_decided_once s h m v l
   end.
 
 Fixpoint xrun (s : sys) (xs : list xop) : sys :=
@@ -37,7 +73,7 @@ Fixpoint xrun (s : sys) (xs : list xop) : sys :=
 Definition xgstep (sg : sys * list N) (x : xop) : sys * list N :=
   match x with
   | XOp o => gstep sg o
-  | XDecidedRefused h m v l =>
+  | XDecidedRefused h m v l | XDecidedRefusedOnce h m v l =>
       let '(s, g) := sg in
       let '(s', _) := xstep s x in
       (s', if v then h :: g else g)
@@ -45,12 +81,48 @@ Definition xgstep (sg : sys * list N) (x : xop) : sys * list N :=
 
 Definition xgrun (sg : sys * list N) (xs : list xop) : sys * list N := fold_left xgstep xs sg.
 
+Lemma unsave_cinv : forall s s1,
+  cinv (ct s) (store s) -> cinv (ct s1) (store s1) -> height (ct s) <= height (ct s1) ->
+  cinv (ct (unsave s s1)) (store (unsave s s1)).
+Proof.
+  intros s s1 [_ I2] [I1 _] Hle. unfold cinv, cinvb, unsave. simpl. split.
+  - exact I1.
+  - intros rec Hr. destruct (I2 rec Hr) as [A B0]. split; [lia|exact B0].
+Qed.
+
+Lemma process_decided_once_spec : forall s h m v l s' r,
+  cinv (ct s) (store s) -> process_decided_once s h m v l = (s', r) ->
+  cinv (ct s') (store s') /\ cf s' = cf s /\
+  height (ct s') = (if v then N.max (height (ct s)) h else height (ct s)) /\
+  (fixed (cf s) = true -> omono (highest (store s)) (highest (store s'))).
+Proof.
+  intros s h m v l s' r Hinv Hp. unfold process_decided_once in Hp.
+  destruct v; cbn [negb] in Hp.
+  2:{ eapply process_decided_spec in Hp; eauto. }
+  destruct (upon_decided (cf s) (ct s) (store s) h m) as [[c1 d1] ret] eqn:Eu.
+  apply upon_decided_spec in Eu; auto. destruct Eu as [Hc1 [Hh1 Hm1]].
+  destruct (compact_at_spec (height c1) c1 d1 h Hc1) as [Hc2 Hh2].
+  set (s1 := set_ct_db s (compact_at c1 h) d1) in *.
+  assert (Hs1 : cinv (ct s1) (store s1)) by (unfold cinv; simpl; rewrite Hh2; exact Hc2).
+  assert (Hhs1 : height (ct s1) = N.max (height (ct s)) h) by (simpl; rewrite Hh2; exact Hh1).
+  destruct (ctrl_writes (cf s) (ct s) (store s) h m).
+  - assert (Hu : cinv (ct (unsave s s1)) (store (unsave s s1))) by (apply unsave_cinv; auto; lia).
+    destruct ret.
+    + apply runner_decided_spec in Hp; auto. destruct Hp as [Ha [Hb [Hc Hd]]].
+      split; [exact Ha|]. split; [rewrite Hc; reflexivity|]. split.
+      * rewrite Hb. exact Hhs1.
+      * intros Hfix. apply Hd. exact Hfix.
+    + inversion Hp; subst s' r. split; [exact Hu|]. split; [reflexivity|]. split; [exact Hhs1|].
+      intros _. apply omono_refl.
+  - inversion Hp; subst s' r. split; [exact Hs1|]. split; [reflexivity|]. split; [exact Hhs1|]. exact Hm1.
+Qed.
+
 Lemma xgstep_inv : forall s g x s' g',
   inv s g -> xgstep (s, g) x = (s', g') ->
   inv s' g' /\ cf s' = cf s /\
   (fixed (cf s) = true -> omono (highest (store s)) (highest (store s'))).
 Proof.
-  intros s g x s' g' Hinv Hx. destruct x as [o|h m v l].
+  intros s g x s' g' Hinv Hx. destruct x as [o|h m v l|h m v l].
   - simpl in Hx. eapply gstep_inv; eauto.
   - simpl in Hx. destruct (process_decided s h m v l) as [s1 r] eqn:Ep.
     inversion Hx; subst s' g'; clear Hx.
@@ -67,6 +139,14 @@ Proof.
       * intros x Hx. specialize (Hg x Hx). lia.
     + exact Hcf.
     + intros _. unfold unsave. simpl. apply omono_refl.
+  - simpl in Hx. destruct (process_decided_once s h m v l) as [s1 r] eqn:Ep.
+    inversion Hx; subst s' g'; clear Hx.
+    destruct Hinv as [Hc Hg].
+    destruct (process_decided_once_spec _ _ _ _ _ _ _ Hc Ep) as [I1 [Hcf [Hh Hm]]].
+    split; [split|split]; auto.
+    destruct v.
+    + intros x [<-|Hx]; [rewrite Hh; lia|]. specialize (Hg x Hx). lia.
+    + intros x Hx. specialize (Hg x Hx). lia.
 Qed.
 
 Lemma xgrun_inv : forall xs s g s' g',
@@ -113,25 +193,109 @@ Proof.
     unfold xgrun. simpl. destruct (xgstep (s0, g0) y) as [s1 g1] eqn:E.
     fold (xgrun (s1, g1) tl). rewrite IH.
     assert (s1 = fst (xstep s0 y)).
-    { destruct y as [o|h m v l].
+    { destruct y as [o|h m v l|h m v l].
       - change (xgstep (s0, g0) (XOp o)) with (gstep (s0, g0) o) in E.
         change (xstep s0 (XOp o)) with (step s0 o).
         rewrite <- (gstep_fst s0 g0 o), E. reflexivity.
-      - simpl in E. simpl. destruct (process_decided s0 h m v l) as [s2 r2]. inversion E; reflexivity. }
+      - simpl in E. simpl. destruct (process_decided s0 h m v l) as [s2 r2]. inversion E; reflexivity.
+      - simpl in E. simpl. destruct (process_decided_once s0 h m v l) as [s2 r2]. inversion E; reflexivity. }
     subst s1. reflexivity. }
   destruct (xgrun (init f, []) xs) as [s0 g] eqn:Eg.
   assert (s0 = s) by (rewrite <- Hr, <- (Hfst xs (init f) []), Eg; reflexivity). subst s0.
   destruct (xgrun_inv _ _ _ _ _ (init_inv f) Eg) as [Hinv Hcf].
   destruct (xgstep (s, g) x) as [s1 g1] eqn:E1.
   assert (s1 = s').
-  { destruct x as [o|h m v l].
+  { destruct x as [o|h m v l|h m v l].
     - change (xgstep (s, g) (XOp o)) with (gstep (s, g) o) in E1.
       change (xstep s (XOp o)) with (step s o) in Hs.
       unfold gstep in E1. rewrite Hs in E1. destruct o; inversion E1; reflexivity.
-    - simpl in E1, Hs. destruct (process_decided s h m v l) as [s2 r2]. inversion E1; inversion Hs; subst; reflexivity. }
+    - simpl in E1, Hs. destruct (process_decided s h m v l) as [s2 r2]. inversion E1; inversion Hs; subst; reflexivity.
+    - simpl in E1, Hs. destruct (process_decided_once s h m v l) as [s2 r2]. inversion E1; inversion Hs; subst; reflexivity. }
   subst s1. destruct (xgstep_inv _ _ _ _ _ Hinv E1) as [_ [_ Hm]]. apply Hm. rewrite Hcf. exact Hfix.
 Qed.
 
 (* the histories of the model are the refusal-free ones *)
 Lemma xrun_embeds : forall ops s, xrun s (map XOp ops) = run s ops.
 Proof. induction ops as [|o tl IH]; intros s; simpl; [reflexivity|apply IH]. Qed.
+
+(* ---- a transient failure does not lose the decision of the running instance ------------------------- *)
+
+Lemma save_instance_keeps : forall f c d i h m c' d',
+  save_instance f c d i h m = (c', d') -> height c' = height c /\ insts c' = insts c.
+Proof.
+  intros f c d i h m c' d' Hs. unfold save_instance in Hs.
+  destruct (is_highest f c h m); destruct (full f); inversion Hs; subst; simpl; auto.
+Qed.
+
+Lemma upon_decided_running : forall f c d h m i,
+  find_inst (insts c) h = Some i -> i_decided i = false ->
+  let i2 := add_commit (decide_with i (c_round m)) m in
+  let c1 := set_insts c (update_first (insts c) i2) in
+  upon_decided f c d h m =
+    (let '(c2, d2) := save_instance f c1 d i2 h m in
+     (if N.ltb (height c) h then set_height c2 h else c2, d2, true)).
+Proof.
+  intros f c d h m i Hf Hd i2 c1. unfold upon_decided, instance_for_height. rewrite Hf. cbn iota beta.
+  rewrite Hd. cbn [negb].
+  assert (Hh : i_height i2 = h) by (unfold i2; simpl; eapply find_inst_height; eauto).
+  fold i2. rewrite (find_update_first _ _ _ _ Hf Hh).
+  fold c1. destruct (save_instance f c1 d i2 h m) as [c2 d2]. reflexivity.
+Qed.
+
+Lemma once_refused_running_is_persisted : forall s h m l i s' r,
+  vinv (ct s) (store s) ->
+  rn s = RRunning h -> height (ct s) <= h ->
+  find_inst (insts (ct s)) h = Some i -> i_decided i = false ->
+  process_decided_once s h m true l = (s', r) ->
+  r = DOk /\ exists rec, highest (store s') = Some rec /\ st_height rec = h.
+Proof.
+  intros s h m l i s' r V Hrn Hle Hf Hd Hp. unfold process_decided_once in Hp. cbn [negb] in Hp.
+  rewrite (upon_decided_running _ _ _ _ _ _ Hf Hd) in Hp.
+  set (i2 := add_commit (decide_with i (c_round m)) m) in *.
+  set (c1 := set_insts (ct s) (update_first (insts (ct s)) i2)) in *.
+  assert (Hh2 : i_height i2 = h) by (unfold i2; simpl; eapply find_inst_height; eauto).
+  assert (Hf1 : find_inst (insts c1) h = Some i2) by (unfold c1; simpl; eapply find_update_first; eauto).
+  destruct (save_instance (cf s) c1 (store s) i2 h m) as [c2 d2] eqn:Es.
+  destruct (save_instance_keeps _ _ _ _ _ _ _ _ Es) as [Hk1 Hk2].
+  assert (V1 : vinv c1 (store s)) by exact V.
+  destruct (save_instance_stores _ _ _ _ _ _ _ _ V1 Hh2 Es) as [_ Hst].
+  set (c3 := if N.ltb (height (ct s)) h then set_height c2 h else c2) in *.
+  assert (Hi3 : insts c3 = insts c1) by (unfold c3; destruct (N.ltb (height (ct s)) h); simpl; exact Hk2).
+  assert (Hh3 : height c3 = h).
+  { unfold c3. destruct (N.ltb_spec (height (ct s)) h); simpl; [reflexivity|].
+    rewrite Hk1. unfold c1. simpl. lia. }
+  assert (Hf3 : find_inst (insts (compact_at c3 h)) h = Some (compact i2)).
+  { apply find_compact_at. rewrite Hi3. exact Hf1. }
+  assert (Hhc : height (compact_at c3 h) = h).
+  { unfold compact_at. destruct (find_inst (insts c3) h); simpl; exact Hh3. }
+  destruct (ctrl_writes (cf s) (ct s) (store s) h m).
+  - (* the controller's save was refused; the runner's save stores the certificate *)
+    unfold runner_decided in Hp. cbn [unsave rn set_ct_db] in Hp. rewrite Hrn, N.eqb_refl in Hp.
+    unfold runner_save in Hp.
+    set (su := unsave s (set_ct_db s (compact_at c3 h) d2)) in *.
+    assert (E1 : insts (ct su) = insts (compact_at c3 h)) by reflexivity.
+    rewrite E1, Hf3 in Hp.
+    destruct (save_instance (cf su) (ct su) (store su) (compact i2) h m) as [c' d'] eqn:Er.
+    inversion Hp; subst s' r. split; [reflexivity|]. cbn [set_ct_db store].
+    assert (V2 : vinv (ct su) (store su)) by exact V.
+    destruct (save_instance_stores _ _ _ _ _ _ _ _ V2 (eq_trans (compact_height i2) Hh2) Er) as [_ Hst2].
+    apply Hst2. change (height (ct su)) with (height (compact_at c3 h)). rewrite Hhc. lia.
+  - (* the controller's save went through (or had nothing to write because the record is there) *)
+    assert (Hr : snd (runner_decided (set_ct_db s (compact_at c3 h) d2) h m) = DOk).
+    { unfold runner_decided. cbn [set_ct_db rn]. rewrite Hrn, N.eqb_refl. reflexivity. }
+    rewrite Hr in Hp. inversion Hp; subst s' r. split; [reflexivity|]. cbn [set_ct_db store].
+    apply Hst. unfold c1. simpl. exact Hle.
+Qed.
+
+(* the same for every state the refusal-free histories reach *)
+Lemma transient_failure_keeps_running_decision : forall f ops s h m l i s' r,
+  run (init f) ops = s ->
+  rn s = RRunning h -> height (ct s) <= h ->
+  find_inst (insts (ct s)) h = Some i -> i_decided i = false ->
+  xstep s (XDecidedRefusedOnce h m true l) = (s', r) ->
+  r = DOk /\ exists rec, highest (store s') = Some rec /\ st_height rec = h.
+Proof.
+  intros f ops s h m l i s' r Hr Hrn Hle Hf Hd Hx.
+  destruct (reach_inv3 f ops) as [g [_ [V _]]]. rewrite Hr in V.
+  eapply once_refused_running_is_persisted; eauto.
+Qed.
